@@ -1157,6 +1157,36 @@ class no_zero_sleep:
         self.time.sleep = self.orig
 
 
+class ExecTimeout(BaseException):
+    """`jug execute` run in-process did not come back (BaseException: execution_loop --keep-going must not swallow it)"""
+
+
+EXEC_TIME_LIMIT = 90                    # seconds; the unchanged code needs well under 2 s on any generated program
+TIMEOUTS = [0]                          # runs that hit the limit so far; later runs get 10 s, callers stop after 3
+
+
+class time_limit:
+    def __init__(self, seconds):
+        self.seconds = seconds
+
+    def __enter__(self):
+        import signal
+
+        if TIMEOUTS[0]:
+            self.seconds = min(self.seconds, 10)
+
+        def onalarm(signum, frame):
+            TIMEOUTS[0] += 1
+            raise ExecTimeout('no result after %d s' % self.seconds)
+        self.signal = signal
+        self.old = signal.signal(signal.SIGALRM, onalarm)
+        signal.setitimer(signal.ITIMER_REAL, self.seconds)
+
+    def __exit__(self, *a):
+        self.signal.setitimer(self.signal.ITIMER_REAL, 0)
+        self.signal.signal(self.signal.SIGALRM, self.old)
+
+
 def real_execute(sc, store_or_path, via_main=False, nwc=1, extra=(), slack=None, fail=None):
     """`jug execute` in-process to its end.  nwc: --nr-wait-cycles; extra: further options (--keep-going ...);
     fail: {(function name, argument values): -1 | k} failures injected into the task functions.
@@ -1176,7 +1206,7 @@ def real_execute(sc, store_or_path, via_main=False, nwc=1, extra=(), slack=None,
     try:
         with jugrun.quiet() as (out, err):
             try:
-                with no_zero_sleep(), low_recursion(slack):
+                with time_limit(EXEC_TIME_LIMIT), no_zero_sleep(), low_recursion(slack):
                     if via_main:
                         jug.jug.main(['jug'] + exec_argv(sc, store_or_path, nwc, extra))
                     else:
@@ -1199,6 +1229,55 @@ def real_execute(sc, store_or_path, via_main=False, nwc=1, extra=(), slack=None,
             pass
         reset_all_hooks()
     return code, list(sc.marks.LOG), out.getvalue() + err.getvalue()
+
+
+# ------------------------------------------------------------------------------------ jug sleep-until
+class StillWaiting(BaseException):
+    """the scripted other worker has nothing left to write and sleep-until sleeps again"""
+
+
+def real_sleep_until(sc, store, writes, slack=None):
+    """the real SleepUntilCommand in-process.  time.sleep is replaced: every sleep is one turn of the other workers,
+    who dump writes[i] = [(hash, value), ...] into the store (through `store`; a file_store object per call site).
+    Returns (status, sleeps, turns used, marker log of all loads): status 0 = exited with 0, ('exit', code),
+    'waiting' = slept again after the last write (it would wait for ever)."""
+    import time
+    from jug.subcommands.check import sleep_until as cmd
+    del jug.task.alltasks[:]
+    del sc.marks.LOG[:]
+    argv, path = list(sys.argv), list(sys.path)
+    import copy
+    if ('sleep-until', sc.jugfile) not in _OPTS:
+        _OPTS[('sleep-until', sc.jugfile)] = jug.options.parse(['sleep-until', sc.jugfile, '--jugdir', 'dict_store'])
+    opts = copy.copy(_OPTS[('sleep-until', sc.jugfile)])
+    st = {'sleeps': 0, 'i': 0}
+
+    def turn(seconds):
+        st['sleeps'] += 1
+        if st['i'] >= len(writes):
+            raise StillWaiting()
+        for h, v in writes[st['i']]:
+            store.dump(v, h.encode('ascii'))
+        st['i'] += 1
+    orig = time.sleep
+    status = None
+    try:
+        with jugrun.quiet():
+            with time_limit(EXEC_TIME_LIMIT), low_recursion(slack):
+                store1, space = jug.jug.init(sc.jugfile, store)
+                time.sleep = turn
+                try:
+                    cmd.run(options=opts, store=store1, jugspace=space)
+                    raise HarnessError('jug sleep-until returned without exiting')
+                except SystemExit as e:
+                    status = 0 if e.code in (None, 0) else ('exit', e.code)
+                except StillWaiting:
+                    status = 'waiting'
+    finally:
+        time.sleep = orig
+        sys.argv[:] = argv
+        sys.path[:] = path
+    return status, st['sleeps'], st['i'], list(sc.marks.LOG)
 
 
 # ------------------------------------------------------------------------------------ locks left by other workers
